@@ -632,7 +632,7 @@ def projection_shape(prog: Program, rep) -> None:
     fk = facts_for(kr)
     mp, rf = kr.params[:2]
     rets = returns_of(kr)
-    early = [r for r in rets if U(r.value) == mp]
+    early = [r for r in rets if r.value is not None and U(fk.resolved(r, r.value)) == mp]     # the (unchanged) argument itself
     ok_early = all(("truthy", f"{rf}.all()", None) in fk.at(r).facts for r in early)
     rep.check(ok_early, "keep-rows", kr.qualname, short(early[0]) if early else "", "keep_rows returns its input unchanged only when every row is kept", kr.loc())
     gen = [r for r in rets if r not in early]
